@@ -3,7 +3,9 @@
 Implementation side: Guard with recording relationship checkers (plain, and asynchronous in every shape the port
 allows: async def, plain def returning a coroutine / an asyncio Future / a Task of the captured loop / an object with
 only __await__, a functools.wraps-decorated async def, an object with async __call__, functools.partial of an async
-function, or a per-query mix; returning non-bool truthy/falsy values, raising, raising in bool(), slow beyond the time-out (patched down), absent),
+function, or a per-query mix; returning non-bool truthy/falsy values, raising, raising in bool(), slow beyond the time-out (patched down), absent;
+the checker OBJECT itself false as a Python value — the recording checker deriving from an empty list / dict / set, with
+__len__ == 0 or __bool__ False (case field "falsy"; the object handed to Guard is that very object) — and still configured),
 policies with rel in short and extended form (overrides as literals / attribute references, with/without
 ':', ctx merged over context._rebac), nested under and/or/not, repeated, over several rules, in policy sets,
 through the compiled function, the set interpreter and the compiled->interpreter fallback; sequences of
@@ -2440,7 +2442,9 @@ def run(chk):
                 "relationship checkers: exhaustive small families (subject override x subject id x attribute value; resource "
                 "override x type x id x attribute; _rebac shape x node ctx shape; 12 operator contexts x 8 checker kinds x "
                 "relationship data; rule lists, nested sets, compiled->interpreter fallback; degenerate operands; sequences "
-                "with the data changed between decisions), seeded random condition trees in random policies/sets, "
+                "with the data changed between decisions; checker objects that are false as Python values (empty list / dict / "
+                "set subclass, __len__ == 0, __bool__ False) x sync / async shapes x operator contexts, and one in six of the "
+                "random and concurrent cases), seeded random condition trees in random policies/sets, "
                 "asyncio.gather and threads over two engines with complementary data, slow checkers with the time-out "
                 "patched down, eval_condition with the context variables set by hand (memo on / off / not a dict), and "
                 "_ctx_hash equality vs the model's canonical form over all pairs of a context pool; and the C13 x C12 "
